@@ -35,34 +35,35 @@ Section Interpretation.
   Variable mut : nat -> tree -> tree.
   Variable cond_tree : nat -> tree -> bool.
   Variable cond_cache : nat -> cache -> bool.
+  Variable bound : nat -> tree -> nat.
   Hypothesis populate_flush : forall t c, populate (flush t c) = c.
   Hypothesis flush_flush : forall t c c', flush (flush t c) c' = flush t c'.
 
   Theorem C15_operation_commutes_with_reparse k s :
     wf Init k = true ->
-    abs tree cache flush (fst (run tree cache populate flush edit mut cond_tree cond_cache k s)) =
-    abs tree cache flush (fst (run tree cache populate flush edit mut cond_tree cond_cache k (abs tree cache flush s, None))).
-  Proof. exact (op_commutes_with_reparse tree cache populate flush edit mut cond_tree cond_cache populate_flush flush_flush k s). Qed.
+    abs tree cache flush (fst (run tree cache populate flush edit mut cond_tree cond_cache bound k s)) =
+    abs tree cache flush (fst (run tree cache populate flush edit mut cond_tree cond_cache bound k (abs tree cache flush s, None))).
+  Proof. exact (op_commutes_with_reparse tree cache populate flush edit mut cond_tree cond_cache bound populate_flush flush_flush k s). Qed.
 
   Theorem C15_history_coherent (h : list (sk * bool)) s :
     Forall (fun st => wf Init (fst st) = true) h ->
-    abs tree cache flush (run_lazy tree cache populate flush edit mut cond_tree cond_cache h s) =
-    run_reference tree cache populate flush edit mut cond_tree cond_cache h (abs tree cache flush s).
-  Proof. exact (history_coherent tree cache populate flush edit mut cond_tree cond_cache populate_flush flush_flush h s). Qed.
+    abs tree cache flush (run_lazy tree cache populate flush edit mut cond_tree cond_cache bound h s) =
+    run_reference tree cache populate flush edit mut cond_tree cond_cache bound h (abs tree cache flush s).
+  Proof. exact (history_coherent tree cache populate flush edit mut cond_tree cond_cache bound populate_flush flush_flush h s). Qed.
 
   Theorem C15_copy_leaves_receiver k s :
-    let '(recv, res) := run_copy tree cache populate flush edit mut cond_tree cond_cache k s in
+    let '(recv, res) := run_copy tree cache populate flush edit mut cond_tree cond_cache bound k s in
     abs tree cache flush recv = abs tree cache flush s /\
-    res = fst (run tree cache populate flush edit mut cond_tree cond_cache k (abs tree cache flush s, None)).
-  Proof. exact (copy_ok tree cache populate flush edit mut cond_tree cond_cache k s). Qed.
+    res = fst (run tree cache populate flush edit mut cond_tree cond_cache bound k (abs tree cache flush s, None)).
+  Proof. exact (copy_ok tree cache populate flush edit mut cond_tree cond_cache bound k s). Qed.
 
   (* a method accepted by the freshness analysis never flushes, edits, reads or returns a cache
      whose elements a tree mutation may have detached (e.g. a forgotten `self.elements = None`) *)
   Theorem C15_no_stale_cache k s :
     wf_fresh (has_cache tree cache s) false k = true ->
-    let '(_, stale', used') := run_g tree cache populate flush edit mut cond_tree cond_cache k s false false in
+    let '(_, stale', used', _) := run_g tree cache populate flush edit mut cond_tree cond_cache bound k s false false in
     stale' = false /\ used' = false.
-  Proof. exact (fun H => fresh_sound tree cache populate flush edit mut cond_tree cond_cache k s false false H eq_refl). Qed.
+  Proof. exact (fun H => fresh_sound tree cache populate flush edit mut cond_tree cond_cache bound k s false false H eq_refl). Qed.
 End Interpretation.
 
 (* non-vacuity: the laws are satisfiable by a non-trivial interpretation (tree = list of optional
@@ -71,7 +72,7 @@ Example C15_nonvacuous :
   let populate := fun t : list nat => t in
   let flush := fun (t c : list nat) => c in
   (forall t c, populate (flush t c) = c) /\ (forall t c c', flush (flush t c) c' = flush t c') /\
-  abs (list nat) (list nat) flush (fst (run (list nat) (list nat) populate flush (fun _ c => map S c) (fun _ t => t) (fun _ _ => true) (fun _ _ => true)
+  abs (list nat) (list nat) flush (fst (run (list nat) (list nat) populate flush (fun _ c => map S c) (fun _ t => t) (fun _ _ => true) (fun _ _ => true) (fun _ _ => 2)
         sk_round_floats ([1; 2], None))) = [2; 3].
 Proof. cbn. repeat split. Qed.
 
